@@ -8,6 +8,8 @@ def explore(run, lean):
     small_corr.explore_instances_threads(run, 40 if quick else 1000)
     run.extra["rule"] = ("random sequences of instance creation, assignment and reads on fresh classes with a thread-safe attribute, compared with a per-instance last-write model (40% of the classes compare and hash by value, so all instances are equal); "
                          "plus 2-3 threads each reading / assigning its own instance, interleaved bytecode by bytecode")
+    ROUND6_RULE = '; statements that use two instances (b.x += a.x, swaps, accumulate-then-assign, compare-then-assign)'
+    run.extra["rule"] += ROUND6_RULE
 
 
 def replay(case):
